@@ -72,7 +72,7 @@ Theorem C15_first_line :
   /\ ((exists a, ~ In 10 a /\ content = a ++ 10 :: snd (first_line content)
                  /\ fst (first_line content) = a ++ [10])
       \/ (~ In 10 content /\ first_line content = (content, []))).
-Proof. intros content. split; [apply first_line_app|apply first_line_shape]. Qed.
+Proof. exact IoP.C15_first_line. Qed.
 Print Assumptions C15_first_line.
 
 Theorem C15_reads_needed :
